@@ -191,7 +191,7 @@ where
                 let what = if signal != 0 { format!("signal{}", signal) } else { format!("exit{}", code) };
                 rep.violation(
                     &format!("abort:{}:{}:{}", class, what, first_line(&stderr)),
-                    json!({"case_index": j, "case": witness, "stderr": stderr.lines().take(3).collect::<Vec<_>>()}),
+                    json!({"case_index": j, "shard": rep.shard, "case": witness, "stderr_first": stderr.lines().take(3).collect::<Vec<_>>(), "stderr_last": stderr.lines().rev().take(6).collect::<Vec<_>>().into_iter().rev().collect::<Vec<_>>()}),
                 );
                 i = j + 1;
             }
@@ -208,7 +208,7 @@ where
                 if hangs == 3 {
                     let (class, witness) = describe(j);
                     rep.evaluations += 1;
-                    rep.violation(&format!("hang:{}", class), json!({"case_index": j, "case": witness}));
+                    rep.violation(&format!("hang:{}", class), json!({"case_index": j, "shard": rep.shard, "case": witness}));
                     if j > i {
                         limit = Some(j);
                         // run i..j next, then skip j: handled by marking j as done through a one-case gap
